@@ -14,7 +14,11 @@ theorem verdict : (classify Generated.factsC05).Sound (Holds (cfgOf Generated.fa
 #print axioms Hv.Data.close_view
 #print axioms Hv.Data.sok_step
 #print axioms reload_view
-#print axioms holds_typeTagged
+#print axioms single_typeTagged
+#print axioms single_of_holds
+#print axioms not_holds_resurrect
+#print axioms not_holds_incfail
+#print axioms findings_backed
 #print axioms C05_partial
 #print axioms not_holds_gob
 #print axioms current_zero_witness
